@@ -87,7 +87,7 @@ finally:
         subprocess.run(['git', '-C', '/repo', 'worktree', 'remove', '--force', d], capture_output=True)
         shutil.rmtree(d, ignore_errors=True)
 print(json.dumps(res, indent=1))
-if res.get('confirmed'):
+if res.get('confirmed') and '--no-store' not in sys.argv:
     dst = os.path.join(HERE, 'seeded', sid)
     os.makedirs(dst, exist_ok=True)
     for f in ('patch.diff', 'demo.py'):
